@@ -24,7 +24,7 @@ ASSUMPTIONS = ["eta_j and lambda_j are taken from the real estimator/bet (their 
                "value or 1; indices where the defining formula is 0/0 or x/0 are skipped",
                "Kaplan-Kolmogorov conventions are evaluated on the padded data x+g against t+g",
                "the SPRT alternative mean is kept in [0,u] (repository fix 68329e7)"]
-N_CASES = {"quick": 48000, "thorough": 1500000}
+N_CASES = {"quick": 160000, "thorough": 1500000}
 
 
 def plan(tier, seed):
